@@ -61,12 +61,12 @@ type step11 struct {
 
 // a line of the worker's result file
 type line11 struct {
-	I    int     `json:"i"`
-	Step *step11 `json:"s,omitempty"`
-	Done bool    `json:"done,omitempty"`
-	Hello bool   `json:"hello,omitempty"` // the child is set up and starts working
-	Skip  bool   `json:"skip,omitempty"`  // not run: see violationCap
-	Loop string  `json:"loop,omitempty"` // non-empty: DefaultServer.Loop behaved differently from the rule applied here
+	I     int     `json:"i"`
+	Step  *step11 `json:"s,omitempty"`
+	Done  bool    `json:"done,omitempty"`
+	Hello bool    `json:"hello,omitempty"` // the child is set up and starts working
+	Skip  bool    `json:"skip,omitempty"`  // not run: see violationCap
+	Loop  string  `json:"loop,omitempty"`  // non-empty: DefaultServer.Loop behaved differently from the rule applied here
 }
 
 // ---------------------------------------------------------------- worker (child process)
@@ -146,7 +146,7 @@ func c11worker(e *env) {
 		os.Stdout = dn
 	}
 	from, to, loopEvery, stride := 0, -1, 0, 1
-	violationCap, violations := 1 << 30, 0
+	violationCap, violations := 1<<30, 0
 	var inPath, outPath string
 	for _, a := range e.args {
 		switch {
@@ -296,9 +296,9 @@ var oomRe = regexp.MustCompile(`cannot allocate (\d+)-byte block`)
 
 type outcome11 struct {
 	skipped bool
-	steps []step11
-	loop  string
-	died  string // stderr of the worker when it died on this input
+	steps   []step11
+	loop    string
+	died    string // stderr of the worker when it died on this input
 }
 
 // runWorkers processes inputs[lo:hi) in child processes; a child that dies is an observation
@@ -654,6 +654,28 @@ func c11(e *env) {
 		ins = append(ins,
 			in11{Proto: "bin", Wire: append(append(wire.Header(0x01, 1, 8, 0, 0), make([]byte, 8)...), 'k'), Origin: "witness: set keylen=1 extras=8 total=0"},
 			in11{Proto: "bin", Wire: append(wire.Header(0x0e, 2, 0, 1, 0), 'k', 'k'), Origin: "witness: append keylen=2 total=1"})
+		// contradictory frames with key lengths at the top of the 16-bit range, followed by
+		// enough bytes to satisfy extras + key: a parser that does not reject them from the
+		// header goes on to allocate/wait for the wrapped value length
+		for _, op := range []uint8{0x01, 0x02, 0x03, 0x11, 0x12, 0x13, 0x0e, 0x0f, 0x19, 0x1a} {
+			for _, kl := range []int{65535, 65534, 65529, 65528, 65527, 32768} {
+				for _, total := range []uint32{0, 7, 8, 100, 65000} {
+					ext := 8
+					if op == 0x0e || op == 0x0f || op == 0x19 || op == 0x1a {
+						ext = 0
+					}
+					if int(total) >= kl+ext {
+						continue
+					}
+					body := make([]byte, ext+kl+16)
+					for i := range body {
+						body[i] = byte('a' + i%26)
+					}
+					ins = append(ins, in11{Proto: "bin", Wire: append(wire.Header(op, uint16(kl), byte(ext), total, 7), body...),
+						Origin: fmt.Sprintf("long-key contradictory frame opcode=0x%02x keylen=%d extras=%d total=%d with %d body bytes", op, kl, ext, total, len(body))})
+				}
+			}
+		}
 	}
 	inPath := e.out + "/inputs.jsonl"
 	{
